@@ -69,6 +69,10 @@ class TableNode(BaseNode):
             for c in range(ncols):
                 if table[c].dimension:
                     table[c].value_raw.append(json.loads(row[c]))
+                elif table[c].keyword=='bool':
+                    # numpy would cast every non-empty string (also 'false') to True
+                    value = table[c].cast_value(row[c])
+                    table[c].value_raw.append(None if value is None else value.value)
                 else:
                     table[c].value_raw.append(row[c])
         # set additional node parameters
